@@ -70,7 +70,9 @@ def run(ctx):
         if fields[2]:
             kw["log_q"] = [1.3, 1.0, 2.0 / 7.0]
         if cname == "SMCSamples":
-            kw.update(beta=0.5, log_evidence=-1234.5678901234567, log_evidence_error=0.1)
+            kw.update(beta=0.5)
+            if fields[2]:       # half of the SMC populations carry an evidence, the other half none (None must stay None)
+                kw.update(log_evidence=-1234.5678901234567, log_evidence_error=0.1)
         if cname == "Samples" and not all(fields):
             kw.update(log_evidence=-1234.5678901234567, log_evidence_error=0.1)      # a weightless set carrying an evidence: every SMC result
         d = None if sp == "none" else (w if sp == "str" else nsutil.native_dtype(ns, w))
@@ -99,7 +101,7 @@ def run(ctx):
                     ctx.violation(f"construct:precision:{cname}:{a}", f"{cname}(xp={a}, float64) built from Python floats holds {fname_} = {nsutil.to_list(got_)} (given {want_})",
                                   {"cls": cname, "ns": a, "spelling": sp, "field": fname_})
                     break
-            given_le = -1234.5678901234567 if (cname == "SMCSamples" or (cname == "Samples" and not all(fields))) else None
+            given_le = -1234.5678901234567 if ((cname == "SMCSamples" and fields[2]) or (cname == "Samples" and not all(fields))) else None
             if given_le is not None and (s.log_evidence is None or nsutil.to_float(s.log_evidence) != given_le):
                 ctx.violation(f"construct:precision:log_evidence:{cname}:{a}", f"{cname}(xp={a}, float64, log_evidence={given_le!r}) holds {s.log_evidence!r}",
                               {"cls": cname, "ns": a, "spelling": sp})
@@ -137,6 +139,9 @@ def run(ctx):
                 for sf in (() if op == "from_samples" else ("log_evidence", "log_evidence_error") if op == "to_standard_samples" else ("log_evidence", "log_evidence_error", "beta")):
                     v0, v1 = getattr(s, sf, None), getattr(t, sf, None)
                     if v0 is None:
+                        if v1 is not None:
+                            ctx.violation(f"{op}:scalar-appears:{sf}:{cname}", f"{cname}.{op} {a}->{b}: {sf} was None, is {v1!r}", case)
+                            break
                         continue
                     try:
                         a1 = None if v1 is None else np.asarray(nsutil.to_list(v1), float)
